@@ -42,6 +42,9 @@ class TaggedDetGrammar(DetGrammar[U, V, W], Generic[T, U, V, W]):
         super().__init__(grammar.start, grammar.rules, clean=False)
         self.grammar = grammar
         self.tags = tags
+        # keep the type request the grammar was built for (the guess made from the
+        # variables in use drops every argument no rule uses)
+        self.type_request = grammar.type_request
 
     def programs(self) -> int:
         return self.grammar.programs()
